@@ -164,6 +164,12 @@ def gen_workspace(rng, npatches=None, fail_prob=0.4, features=("modify", "create
                     # differing names, the old one was on disk at the start and was deleted or renamed away
                     # earlier in the series (in memory within one invocation, on disk across invocations)
                     on = prefix_a + rng.choice(gone)
+                if b"/" in n and rng.random() < 0.15:
+                    # another spelling of the same path: the files are kept by Path, "a//b" and "a/./b" are "a/b"
+                    alt = n.replace(b"/", rng.choice([b"//", b"/./", b"///"]), 1)
+                    if rng.random() < 0.5:
+                        on = on[:len(on) - len(n)] + alt if on.endswith(n) else on
+                    nn = nn[:len(nn) - len(n)] + alt
                 if reverse:
                     entry = file_patch_text(rng, on, nn, bl, a, ctx, style)
                 else:
